@@ -1,6 +1,7 @@
 """Per-property pipelines.  Each takes a driver.Ctx and fills it."""
 import json, os
 import core
+import gen
 from core import cfg_text
 
 # --------------------------------------------------------------------------------------
@@ -197,6 +198,12 @@ def p_C06(ctx):
         combos += [("dev", "u32", 0), ("dev", "u32", 2), ("release", "elem", 0), ("release", "elem", 1), ("dev", "elem", 2)]
     for prof, elem, cap in combos:
         ctx.replay(r.cases_path, attr_hist, profile=prof, elem=elem, cap=cap, label="insert-edges")
+    # code -> spec: random histories incl. LARGE arrays (long rows/columns, hundreds of cells) validated by TLC
+    nh, steps = (150, 50) if ctx.quick else (2000, 100)
+    ctx.drive_and_validate("drive-hist", ["hist", ctx.seed + 11, nh, steps, 6, "{out}", "elem"], "TooDeeTrace", attr_hist_event,
+                           profile="dev", invariants=("ShapeOK", "HandleOK"))
+    ctx.drive_and_validate("drive-hist", ["hist", ctx.seed + 12, nh, steps, 8, "{out}", "elem"], "TooDeeTrace", attr_hist_event,
+                           profile="release", invariants=("ShapeOK", "HandleOK"))
 
 
 def p_C07(ctx):
@@ -216,6 +223,12 @@ def p_C07(ctx):
         combos += [("dev", "u32", 0), ("release", "zst", 1), ("release", "elem", 0), ("dev", "elem", 2)]
     for prof, elem, cap in combos:
         ctx.replay(sel, attr_hist, profile=prof, elem=elem, cap=cap, label="drain-edges")
+    # code -> spec: random histories incl. LARGE arrays (long rows/columns, hundreds of cells) validated by TLC
+    nh, steps = (150, 50) if ctx.quick else (2000, 100)
+    ctx.drive_and_validate("drive-hist", ["hist", ctx.seed + 13, nh, steps, 6, "{out}", "elem"], "TooDeeTrace", attr_hist_event,
+                           profile="dev", invariants=("ShapeOK", "HandleOK"))
+    ctx.drive_and_validate("drive-hist", ["hist", ctx.seed + 14, nh, steps, 8, "{out}", "elem"], "TooDeeTrace", attr_hist_event,
+                           profile="release", invariants=("ShapeOK", "HandleOK"))
 
 
 # --------------------------------------------------------------------------------------
@@ -306,6 +319,25 @@ def acc_replays(ctx, r, combos, label):
         ctx.replay(r.cases_path, attr_acc, profile=prof, elem=elem, label=label)
 
 
+
+def attr_acc_event(case, ev):
+    """a rejected event of a random receiver-family case"""
+    if case is None:
+        return set(), {"family": "acc-trace", "kind": "trace_rejected"}
+    return attr_acc(case, {"step": 0, "kind": "root", "detail": {}})
+
+
+def acc_random(ctx, groups, n, maxdim, only_views=False, profile="dev", elem="u32", label="big", large_share=0.25):
+    def generate(path):
+        made = gen.acc_cases(ctx.seed + (0 if profile == "dev" else 101), n, maxdim, groups, path, large_share=large_share)
+        if only_views:
+            tmp = path + ".tmp"
+            core.filter_cases(path, tmp, lambda c: len(c["stack"]) > 0)
+            os.replace(tmp, path)
+        return made
+    ctx.random_cases_validate(label, generate, "AccessTrace", attr_acc, attr_acc_event, profile=profile, elem=elem, invariants=("TypeOK",))
+
+
 def p_C02(ctx):
     ctx.rule = ("every accessor form (x[(c,r)], x[r][c], x.col(c)[r], mutable forms, unchecked getters, row, col) with every "
                 "coordinate 0..dim+1 and huge/wrap-adversarial values, on every receiver: owned, slice-built view, view and "
@@ -320,6 +352,7 @@ def p_C02(ctx):
                     bigs=(BIG_MAX, BIG_HALF, BIG_HALF1, BIG_P32, BIG_WRAP), workers=12)
         combos = [("dev", "u32"), ("release", "u32"), ("dev", "elem"), ("release", "elem"), ("release", "zst")]
     acc_replays(ctx, r, combos, "access")
+    acc_random(ctx, ["read", "write"], 3000 if ctx.quick else 40000, 12, profile="release")
 
 
 def p_C03(ctx):
@@ -342,6 +375,7 @@ def p_C03(ctx):
     if not ctx.quick:
         r3 = acc_tlc(ctx, "views-depth3", ["view"], [22, 23, 32], kinds=("owned",), depth=3, bigs=(BIG_MAX,), workers=12)
         acc_replays(ctx, r3, [("dev", "u32"), ("release", "u32")], "views-depth3")
+    acc_random(ctx, ["read", "write"], 3000 if ctx.quick else 40000, 12, profile="dev")
 
 
 MUT_GROUPS = ["write", "prim", "copy", "move", "sortrow", "sortcol"]
@@ -369,6 +403,8 @@ def p_C04(ctx):
         core.filter_cases(r2.cases_path, sel2, lambda c: len(c["stack"]) > 0)
         r2.cases_path = sel2
         acc_replays(ctx, r2, [("dev", "u32"), ("release", "elem")], "mutview-nested")
+    acc_random(ctx, ["prim", "move", "move", "copy", "copy", "write", "sort"], 9000 if ctx.quick else 90000, 12, only_views=True, profile="dev", large_share=0.35)
+    acc_random(ctx, ["prim", "move", "copy", "write", "sort"], 2000 if ctx.quick else 30000, 9, only_views=True, profile="release", elem="elem", label="big-elem")
 
 
 def p_C13(ctx):
@@ -384,6 +420,8 @@ def p_C13(ctx):
     if not ctx.quick:
         combos += [("release", "u32"), ("dev", "zst")]
     acc_replays(ctx, r, combos, "prims")
+    acc_random(ctx, ["prim"], 3000 if ctx.quick else 40000, 12, profile="dev")
+    acc_random(ctx, ["prim"], 2000 if ctx.quick else 20000, 12, profile="release", elem="elem", label="big-elem")
 
 
 def p_C14(ctx):
@@ -397,6 +435,8 @@ def p_C14(ctx):
                 bigs=(BIG_MAX,) if ctx.quick else (BIG_MAX, BIG_HALF1, BIG_WRAP), workers=8 if ctx.quick else 12)
     combos = [("dev", "u32"), ("release", "u32"), ("dev", "elem")]
     acc_replays(ctx, r, combos, "copies")
+    acc_random(ctx, ["copy"], 9000 if ctx.quick else 80000, 12, profile="dev", large_share=0.4)
+    acc_random(ctx, ["copy"], 6000 if ctx.quick else 40000, 12, profile="release", label="big-rel", large_share=0.4)
 
 
 def p_C15(ctx):
@@ -410,6 +450,8 @@ def p_C15(ctx):
     acc_replays(ctx, r, [("dev", "u32"), ("release", "elem")], "moves-owned")
     r2 = acc_tlc(ctx, "moves-views", ["move"], [13, 31, 23, 32, 33] if ctx.quick else ALL_SHAPES4, kinds=("owned", "slice_m"), depth=1, workers=8)
     acc_replays(ctx, r2, [("dev", "u32"), ("release", "u32"), ("dev", "elem")], "moves-views")
+    acc_random(ctx, ["move"], 4000 if ctx.quick else 60000, 16, profile="dev")
+    acc_random(ctx, ["move"], 2000 if ctx.quick else 30000, 16, profile="release", elem="elem", label="big-elem")
 
 
 def sort_pipeline(ctx, by):
@@ -504,12 +546,12 @@ def iter_pipeline(ctx, kinds, what):
                 "for Mut variants every yielded reference is written through and the whole root compared. distinct by (receiver, kind, call sequence)") % what
     ctx.assumptions = ACC_ASSUME
     q = ctx.quick
-    shapes = [0, 11, 13, 31, 23, 32, 33] if q else ALL_SHAPES4
+    shapes = ([0, 11, 13, 31, 23, 32] if "cells" in kinds else [0, 11, 13, 31, 23, 32, 33]) if q else ALL_SHAPES4
     r = iter_tlc(ctx, "edges", kinds, shapes, rkinds=("owned", "slice_v", "slice_m"), depth=1,
                  bigs=(BIG_MAX, BIG_WRAP) if q else (BIG_MAX, BIG_HALF1, BIG_P32, BIG_WRAP), workers=8 if q else 12)
     ctx.count_nontrivial(r.cases_path, iter_key)
     ctx.sample_from(r.cases_path)
-    combos = [("dev", "u32"), ("release", "u32"), ("dev", "elem")] + ([] if q else [("release", "elem"), ("dev", "zst")])
+    combos = [("dev", "u32"), ("release", "elem")] + ([] if q else [("release", "u32"), ("dev", "elem"), ("dev", "zst")])
     for prof, elem in combos:
         ctx.replay(r.cases_path, attr_iter, profile=prof, elem=elem, label="edges")
     sq = iter_tlc(ctx, "sequences", kinds, [23, 32] if q else [13, 31, 23, 32, 33], rkinds=("owned",), depth=1 if q else 1,
@@ -525,6 +567,14 @@ def iter_pipeline(ctx, kinds, what):
         ctx.replay(w.cases_path, attr_iter, profile=prof, elem=elem, label="walks")
     # Layer B: the cursors as implemented refine the ideal sequence; every concrete cursor state is replayed
     cursors_check(ctx, [k for k in kinds if not k.startswith("into_")], attr_iter)
+    # code -> spec: random call sequences on LONG rows / columns (size-gated paths), judged by TLC (IterTrace.tla)
+    def attr_iter_event(case, ev):
+        if case is None:
+            return set(), {"family": "iter-trace", "kind": "trace_rejected"}
+        return attr_iter(case, {"step": len(case["calls"]), "kind": "remaining", "detail": {}})
+    for prof, elem, nn in [("dev", "u32", 1500 if q else 20000), ("release", "elem", 700 if q else 10000)]:
+        ctx.random_cases_validate("long-" + prof, lambda path, prof=prof, nn=nn: gen.iter_cases(ctx.seed + (5 if prof == "dev" else 55), nn, 9, kinds, path),
+                                  "IterTrace", attr_iter, attr_iter_event, profile=prof, elem=elem, invariants=("TypeOK",))
 
 
 def p_C08(ctx):
